@@ -159,7 +159,23 @@ func (g *Gen) genMisuse(t *rapid.T) *Op {
 		}
 	}
 	alive := m.AliveList()
-	class := rapid.SampledFrom([]string{"stale", "stale", "stale", "dup-add", "remove-missing", "empty", "omitted-target", "dead-target", "batch"}).Draw(t, "misuseClass")
+	class := rapid.SampledFrom([]string{"stale", "stale", "stale", "dup-add", "remove-missing", "empty", "omitted-target", "dead-target", "batch", "dead-target-query"}).Draw(t, "misuseClass")
+	if class == "dead-target-query" {
+		// a typed filter with a free relation component, queried or used for a batch with a removed entity as target
+		var l []int
+		for i, f := range m.Filters {
+			if f.Inst >= 0 && !f.Stale && len(g.qrelComps(f)) > 0 {
+				l = append(l, i)
+			}
+		}
+		if len(l) > 0 && len(dead) > 0 && m.OpenQ < 60 {
+			fi := rapid.SampledFrom(l).Draw(t, "filter")
+			c := rapid.SampledFrom(g.qrelComps(m.Filters[fi])).Draw(t, "relComp")
+			op := &Op{K: "queryDeadTarget", F: fi, QRels: []RelSpec{{C: c, T: rapid.SampledFrom(dead).Draw(t, "deadTarget"), S: rapid.IntRange(0, 2).Draw(t, "relStyle")}}, Mode: rapid.IntRange(0, 1).Draw(t, "viaBatch"), Sub: class}
+			return op
+		}
+		class = "stale"
+	}
 	if class == "batch" {
 		if op := g.genBatchMisuse(t); op != nil {
 			op.Sub = "batch"
@@ -449,4 +465,32 @@ func (g *Gen) genBatchMisuse(t *rapid.T) *Op {
 		comp := rapid.SampledFrom(listOf(free)).Draw(t, "relComp")
 		return &Op{K: "addBatch", F: c.fi, P: PMap, M: comp + comps.N*rapid.IntRange(0, 1).Draw(t, "map1"), Comps: []int{comp}, Init: drawInit(t), Vals: g.vals(1)}
 	}
+}
+
+// qrelComps lists the relation components of a filter that have no fixed target.
+func (g *Gen) qrelComps(f *FilterSpec) []int {
+	fixed := uint16(0)
+	for _, r := range f.Rels {
+		fixed |= 1 << uint(r.C)
+	}
+	return listOf(f.Mask() & comps.RelMask &^ fixed)
+}
+
+// opQueryDeadTarget: a typed Query(rel...) / Batch(rel...) naming a removed entity as target must panic and must not
+// leave the world locked.
+func (it *Interp) opQueryDeadTarget(op *Op) {
+	f := it.M.Filters[op.F]
+	for _, r := range op.QRels {
+		if it.M.targetOK(r.T) {
+			panic("bad op: queryDeadTarget with an alive target")
+		}
+	}
+	it.run(op, false, func(b *Backend) {
+		if op.Mode == 1 {
+			_ = b.flt[op.F].Batch(b.rels(f.List(), op.QRels))
+			return
+		}
+		q := b.flt[op.F].Query(b.rels(f.List(), op.QRels))
+		q.Close()
+	})
 }
